@@ -64,6 +64,28 @@ def framing(L, k=4):
     return h
 
 
+def framing_huge(L):
+    """A frame that announces far more than arrives: the only legitimate outcome is ConnectionClosed
+    when the peer goes away (no other exception, nothing sent, nothing consumed beyond the stream)."""
+    header = bytes([0x42, 0x00, 0x78, 0x01]) + bytes(R.be(L, 4))
+
+    def h(data: bytes, c0: int, c1: int) -> bool:
+        """
+        post: _
+        """
+        if len(data) > 2 or not (1 <= c0 <= 12 and 1 <= c1 <= 12):
+            return True
+        conn = SS.FakeConnection(header + data, [c0, c1])
+        s = SS.mk_session(None, conn)
+        try:
+            s._receive_request()
+        except kex.ConnectionClosed:
+            reach()
+            return conn.pos == 8 + len(data) and not conn.sent
+        return False
+    return h
+
+
 class _Boom(Exception):
     pass
 
@@ -315,6 +337,15 @@ def corrupt(kind, lo, hi):
             return False                      # engine reached without a complete decode
         if calls and R.structural_defect(buf) is not None:
             return False                      # a request with inconsistent length fields was executed
+        if calls:
+            # the announced Batch Count and the batch items actually present agree (read off the bytes)
+            top = R.walk(buf)
+            n_items = sum(1 for c in (top[0][3] or []) if c[0] == T.BATCH_ITEM.value)
+            announced = R.leaf_values(buf).get(T.BATCH_COUNT.value, [None])[0]
+            if announced is None or announced > n_items:
+                return False                  # announced items are missing, yet part of the request was executed
+            # (announced < present: the decoder ignores what follows the announced items - trailing data
+            # is not checked by RequestMessage.read; the announced request is what was executed)
         if len(calls) > 1:
             return False
         if not parsed:
@@ -341,6 +372,10 @@ def conditions(tier):
     out = []
     plan = ([(0, 4), (1, 4), (5, 4), (8, 4), (16, 3), (24, 3), (40, 2)] if thorough
             else [(0, 4), (1, 4), (5, 3), (8, 3), (16, 2)])
+    for L in (2 ** 20 + 16, 2 ** 31 - 8):
+        out.append(Cond("framing-huge-len%d" % L, "framing_huge", dict(L=L),
+                        bounds="advertised length %d with at most 2 body bytes before the peer closes; 2 arbitrary chunk "
+                               "sizes" % L, timeout=300, part="framing"))
     for L, k in plan:
         out.append(Cond("framing-len%d" % L, "framing", dict(L=L, k=k),
                         bounds="advertised length %d; stream = header + up to %d arbitrary bytes; %d arbitrary chunk "
